@@ -40,7 +40,10 @@ class Link(link_header.Link):
             #            elif RE_ONLY_TOKEN.match(value) or key.endswith('*'):
             #                return '%s=%s' % (key, value)
             else:
-                return '%s="%s"' % (key, value.replace('"', r"\""))
+                return '%s="%s"' % (
+                    key,
+                    value.replace("\\", "\\\\").replace('"', r"\""),
+                )
 
         return ";".join(
             ["<%s>" % self.href]
